@@ -177,7 +177,11 @@ func genHistoryBody(g *Gen, w *bufio.Writer, t *Ty, v *Val, o histOpts) {
 			}
 			nh++
 			name := fmt.Sprintf("h%d", nh)
-			fmt.Fprintf(w, "get %s %s %d\n", name, h.name, n)
+			if g.Chance(25) && (h.t.Kind == KVector || h.t.Kind == KList || h.t.Kind == KContainer) {
+				fmt.Fprintf(w, "iterget %s %s %d\n", name, h.name, n) // the element handed out by the mutable Iter()
+			} else {
+				fmt.Fprintf(w, "get %s %s %d\n", name, h.name, n)
+			}
 			if h.v.Kind == VSeq && int(n) < len(h.v.Seq) {
 				nsh := &shadow{name: name, t: et, v: cloneVal(h.v.Seq[n]), parent: h, slot: n, basic: !isComposite(et)}
 				handles = append(handles, nsh)
@@ -215,7 +219,11 @@ func genHistoryBody(g *Gen, w *bufio.Writer, t *Ty, v *Val, o histOpts) {
 			h.writeBack()
 		}
 		if o.obsEvery || mutated {
-			fmt.Fprintln(w, "obs r")
+			if g.Chance(30) {
+				fmt.Fprintln(w, "obsg r")
+			} else {
+				fmt.Fprintln(w, "obs r")
+			}
 			if g.Chance(25) {
 				fmt.Fprintln(w, "blen r")
 			}
@@ -230,6 +238,14 @@ func genHistoryBody(g *Gen, w *bufio.Writer, t *Ty, v *Val, o histOpts) {
 			fmt.Fprintln(w, "hcount r")
 		}
 		if o.snaps {
+			if nsnap > 0 && g.Chance(8) {
+				// plugging in another pair hash re-initialises the zero-hash table: existing trees must not change
+				fmt.Fprintln(w, "rehash alt")
+				for k := 0; k < nsnap; k++ {
+					fmt.Fprintf(w, "chk s%d\n", k)
+				}
+				fmt.Fprintln(w, "rehash sha")
+			}
 			for k := 0; k < nsnap; k++ {
 				if g.Chance(60) || k == nsnap-1 {
 					fmt.Fprintf(w, "chk s%d\n", k)
@@ -462,6 +478,7 @@ func init() {
 			genHistory(g, w, t, histOpts{steps: 2 + g.Intn(8), iters: true})
 		}
 		genIterBoundaries(g, tier, w)
+		genIterInterleaved(g, w)
 	})
 }
 
@@ -542,6 +559,42 @@ func candidateOps(t *Ty) []string {
 		return []string{"chg r 0 n5", "chg r 1 b1", "chg r 1 b", "chg r 2 n1"}
 	}
 	return nil
+}
+
+// genIterInterleaved: two read-only iterators alive at the same time, advanced alternately
+func genIterInterleaved(g *Gen, w *bufio.Writer) {
+	pairs := [][2]*Ty{
+		{{Kind: KBitlist, N: 2048}, {Kind: KBitlist, N: 2048}},
+		{{Kind: KBitvector, N: 700}, {Kind: KBitlist, N: 1 << 20}},
+		{{Kind: KList, N: 64, Elem: &Ty{Kind: KBytesN, N: 32}}, {Kind: KVector, N: 5, Elem: &Ty{Kind: KBytesN, N: 32}}},
+		{{Kind: KList, N: 300, Elem: &Ty{Kind: KUint, N: 2}}, {Kind: KList, N: 300, Elem: &Ty{Kind: KUint, N: 2}}},
+		{{Kind: KVector, N: 6, Elem: &Ty{Kind: KBytesN, N: 4}}, {Kind: KList, N: 9, Elem: &Ty{Kind: KBytesN, N: 4}}},
+	}
+	for _, pr := range pairs {
+		for rep := 0; rep < 3; rep++ {
+			fmt.Fprintln(w, "begin")
+			for k, t := range pr {
+				var v *Val
+				if t.Kind == KBitlist {
+					v = &Val{Kind: VBits, Bits: g.randBits(300 + g.Intn(400))}
+				} else if t.Kind == KList {
+					n := 3 + g.Intn(40)
+					if uint64(n) > t.N {
+						n = int(t.N)
+					}
+					v = &Val{Kind: VSeq, Seq: []*Val{}}
+					for j := 0; j < n; j++ {
+						v.Seq = append(v.Seq, g.RandVal(t.Elem, 2))
+					}
+				} else {
+					v = g.RandVal(t, 800)
+				}
+				fmt.Fprintf(w, "mk %s new %s %s\n", []string{"r", "q"}[k], t, v)
+			}
+			fmt.Fprintln(w, "iter2 r q")
+			fmt.Fprintln(w, "iter2 q r")
+		}
+	}
 }
 
 // genIterBoundaries: series whose lengths end inside / at / just after a 32-byte or 256-bit
